@@ -144,14 +144,36 @@ fn is_enemy_step(mo: &Model, a: &Action) -> bool {
 }
 
 /// Resolves one (selector, bias) pair against the offered list. Pure.
+/// What the walker remembers for steering (never used by an oracle).
+#[derive(Default)]
+pub struct Memory {
+    pub seen: HashSet<Board>,
+    /// steps (from, dir) each side made in its previous turn [silver, gold]
+    pub prev_turn: [Vec<(u8, u8)>; 2],
+    pub this_turn: Vec<(u8, u8)>,
+}
+
+impl Memory {
+    pub fn record(&mut self, mo_before: &Model, a: MAction) {
+        let side = mo_before.gold_to_move as usize;
+        if let MAction::Step { from, dir } = a {
+            self.this_turn.push((from, dir));
+        }
+        if mo_before.ends_turn(a) {
+            self.prev_turn[side] = std::mem::take(&mut self.this_turn);
+        }
+    }
+}
+
 pub fn choose(
     offered: &[Action],
     mo: &Model,
     sel: u16,
     bias: u8,
     profile: Profile,
-    seen: &HashSet<Board>,
+    mem: &Memory,
 ) -> usize {
+    let seen = &mem.seen;
     let n = offered.len();
     debug_assert!(n > 0);
     let idx_in = |cands: &[usize]| cands[(sel as usize * cands.len()) >> 16];
@@ -166,29 +188,33 @@ pub fn choose(
     #[derive(PartialEq)]
     enum Cl {
         Uniform,
+        Quiet,
         Pass,
         Enemy,
         Capture,
         Revisit,
+        Undo,
         Rabbit,
     }
     let b = bias % 16;
     let class = match profile {
         Profile::Normal => match b {
-            0..=5 => Cl::Uniform,
+            0..=4 => Cl::Uniform,
+            5 => Cl::Quiet,
             6 | 7 => Cl::Pass,
             8 | 9 => Cl::Enemy,
             10 | 11 => Cl::Capture,
-            12 | 13 => Cl::Revisit,
+            12 => Cl::Revisit,
+            13 => Cl::Undo,
             14 => Cl::Rabbit,
             _ => Cl::Uniform,
         },
         Profile::Cycle => match b {
-            0..=2 => Cl::Uniform,
+            0..=2 => Cl::Quiet,
             3..=6 => Cl::Pass,
-            7..=12 => Cl::Revisit,
-            13 => Cl::Enemy,
-            14 => Cl::Capture,
+            7..=11 => Cl::Undo,
+            12 | 13 => Cl::Revisit,
+            14 => Cl::Enemy,
             _ => Cl::Uniform,
         },
         Profile::Fight => match b {
@@ -200,8 +226,23 @@ pub fn choose(
             _ => Cl::Rabbit,
         },
     };
-    let cands: Vec<usize> = match class {
+    let is_quiet = |i: usize| match to_maction(&offered[i]) {
+        MAction::Step { from, .. } => {
+            let c = mo.board.at(from);
+            m::kind(c) != m::R && mo.result_board(to_maction(&offered[i])).map(|r| r.1.is_empty()).unwrap_or(false)
+        }
+        _ => false,
+    };
+    let undo_of = |i: usize| match to_maction(&offered[i]) {
+        MAction::Step { from, dir } => mem.prev_turn[mo.gold_to_move as usize]
+            .iter()
+            .any(|&(pf, pd)| m::neighbour(pf, pd) == Some(from) && m::opposite(pd) == dir),
+        _ => false,
+    };
+    let mut cands: Vec<usize> = match class {
         Cl::Uniform => vec![],
+        Cl::Quiet => (0..n).filter(|&i| is_quiet(i)).collect(),
+        Cl::Undo => (0..n).filter(|&i| undo_of(i)).collect(),
         Cl::Pass => (0..n).filter(|&i| offered[i] == Action::Pass).collect(),
         Cl::Enemy => (0..n).filter(|&i| is_enemy_step(mo, &offered[i])).collect(),
         Cl::Capture => (0..n)
@@ -231,6 +272,18 @@ pub fn choose(
             })
             .collect(),
     };
+    if cands.is_empty() && class == Cl::Undo {
+        cands = (0..n)
+            .filter(|&i| match to_maction(&offered[i]) {
+                a @ MAction::Step { .. } => mo.result_board(a).map(|r| seen.contains(&r.0)).unwrap_or(false),
+                _ => false,
+            })
+            .collect();
+    }
+    if cands.is_empty() && profile == Profile::Cycle && class != Cl::Uniform {
+        // keep cycle games alive: prefer steps that neither move a rabbit nor capture
+        cands = (0..n).filter(|&i| is_quiet(i)).collect();
+    }
     if cands.is_empty() {
         idx_in(&all)
     } else {
@@ -375,7 +428,7 @@ pub fn walk(
             return Err(WalkFail { fail: Fail::new("harness:start", e), trace, inconclusive: true })
         }
     };
-    let mut seen: HashSet<Board> = HashSet::new();
+    let mut mem = Memory::default();
     let wf = |fail: Fail, trace: &Trace| WalkFail { fail, trace: trace.clone(), inconclusive: false };
     {
         let v = View::new(&eng, &mo, false);
@@ -387,7 +440,7 @@ pub fn walk(
     loop {
         let v = View::new(&eng, &mo, false);
         obs.on_state(&v, st).map_err(|f| wf(f, &trace))?;
-        seen.insert(mo.board);
+        mem.seen.insert(mo.board);
         // ---- expansion of the turn tree at (some) turn starts
         if let Some(ex) = opts.expand {
             if !mo.setup && mo.step == 0 && nodes_used < ex.max_nodes {
@@ -437,7 +490,7 @@ pub fn walk(
                     break;
                 }
                 let (sel, bias) = ops[i];
-                offered[choose(&offered, &mo, sel, bias, opts.profile, &seen)]
+                offered[choose(&offered, &mo, sel, bias, opts.profile, &mem)]
             }
             Source::Explicit(list) => {
                 if i >= list.len() {
@@ -473,6 +526,7 @@ pub fn walk(
             }
         };
         trace.actions.push(a);
+        mem.record(&mo, ma);
         {
             let e = Edge {
                 before: &v,
